@@ -470,6 +470,11 @@ class Folder:
             return Folder(self.env, self.repo, owner, None, self.hook).fold(r)
         if isinstance(r, ClassInfo):
             return r  # a class of the model, as a value (e.g. chosen by a conditional expression)
+        if isinstance(r, FuncInfo) and (r.cls is None or r.is_static or r.is_classmethod or (isinstance(e, ast.Attribute) and not (isinstance(e.value, ast.Name) and e.value.id in ("self",)))):
+            # a function of the repository as a first-class value (passed to reduce / map / sorted(key=) / stored in a table)
+            from .absint import FnRef
+
+            return FnRef(self.repo, r, self.hook)
         if isinstance(r, External):
             if r.dotted in ("builtins.True", "builtins.False", "builtins.None"):
                 return {"True": True, "False": False, "None": None}[r.dotted.split(".")[1]]
@@ -772,15 +777,17 @@ class Folder:
         if name in ("functools.reduce", "reduce") and len(args) in (2, 3):
             f = self.fold(args[0])
             vals = list(self.fold(args[1]))
-            if isinstance(f, _Lambda):
+            if isinstance(f, (_Lambda, _LocalFn, _Partial)) or type(f).__name__ == "_BoundMethod" or (isinstance(f, Abstract) and callable(f)):
                 if len(args) == 3:
                     acc = self.fold(args[2])
                 elif vals:
                     acc, vals = vals[0], vals[1:]
                 else:
-                    raise Unfoldable("reduce of empty sequence")
+                    from .absint import Raised
+
+                    raise Raised("TypeError", e)  # reduce() of an empty iterable with no initial value
                 for v in vals:
-                    acc = f.call(self, [acc, v])
+                    acc = call_value(self, f, [acc, v])
                 return acc
             raise Unfoldable(unparse(e))
         if name in ("itertools.repeat", "repeat") and len(args) == 2:
